@@ -187,6 +187,10 @@ func (i *InvalidationIndex) cutKeys(labeledKeys map[string][]string, labels ...s
 	defer i.mu.Unlock()
 
 	for _, label := range labels {
+		if _, found := res[label]; found {
+			continue // Label is provided more than once.
+		}
+
 		res[label] = labeledKeys[label]
 		delete(labeledKeys, label)
 	}
